@@ -37,7 +37,7 @@ Theorem only_200 d c b ens init : creds_wf c ->
   accepted b = true /\ ens = true /\ init = true /\ exists u p, c = Creds u p.
 Proof.
   destruct c as [u p|r]; simpl.
-  - intros _. unfold authenticate_user. destruct d; [discriminate|].
+  - intros _. unfold authenticate_user. destruct d; [discriminate|]. destruct (multi_at u); [discriminate|].
     destruct (accepted b), ens, init; simpl; try discriminate. intros _. repeat split; eauto.
   - intros W ->. contradiction.
 Qed.
@@ -85,27 +85,28 @@ Proof.
   - apply authplain_direct. now left.
 Qed.
 
-Lemma classify_none d u p : classify_cred d u p = None ->
-  json_clean (address_of d u) = true /\ json_clean p = true /\ count_byte u AT <= 1.
+(** a user name with more than one '@' is refused before the backend is contacted *)
+Theorem multi_at_refused d u p b ens init : multi_at u = true ->
+  let r := authenticate_user d u p b ens init in sent r = [] /\ answer r = R_NO /\ bound r = None.
 Proof.
-  unfold classify_cred. destruct (json_clean (address_of d u) && json_clean p) eqn:E; cbn [negb]; [|discriminate].
-  apply andb_true_iff in E as [E1 E2].
-  destruct (Nat.leb 2 (count_byte u AT)) eqn:L; [discriminate|]. apply Nat.leb_gt in L. intros _. repeat split; auto. lia.
+  intros M. unfold authenticate_user. destruct d; [repeat split|]. rewrite M. repeat split.
 Qed.
 
 (** the property for one attempt with supplied (u, p), every default domain,
-    every backend outcome *)
+    every backend outcome; [in_domain]: address and password are valid UTF-8 *)
 Theorem imap_attempt_spec d u p b ens init :
-  classify_cred d u p = None ->
+  in_domain d u p = true ->
   imap_spec d u p (accepted b) (authenticate_user d u p b ens init).
 Proof.
-  intros C. apply classify_none in C as (C1 & C2 & C3).
+  intros C. unfold in_domain in C. apply andb_true_iff in C as [C1 C2].
   assert (Hd : d = [] \/ d <> []) by (destruct d; [now left|right; discriminate]).
   unfold imap_spec, authenticate_user. destruct Hd as [->|Hd]; [reflexivity|].
   destruct d as [|d0 d'] eqn:Ed; [congruence|]. rewrite <- Ed in *. clear Ed.
+  destruct (multi_at u) eqn:M; [reflexivity|].
+  assert (C3 : count_byte u AT <= 1) by (unfold multi_at in M; apply Nat.ltb_ge in M; exact M).
   destruct (accepted b); [|reflexivity]. destruct ens; [|reflexivity]. destruct init; [|reflexivity].
   simpl. split; [reflexivity|]. split.
-  - eexists; split; [reflexivity|]. rewrite <- address_of_email. now apply body_exact_clean.
+  - eexists; split; [reflexivity|]. rewrite <- address_of_email. now apply body_exact_valid.
   - eexists; split; [reflexivity|]. now apply bound_identity.
 Qed.
 
@@ -168,7 +169,7 @@ Qed.
 (** ... and when no attempt falls into a finding class, the store is the one
     of the address that attempt supplied, which the backend saw verbatim *)
 Theorem session_bound_exact l :
-  (forall a u p, In a l -> entry_creds false (a_entry a) = Creds u p -> classify_cred (a_domain a) u p = None) ->
+  (forall a u p, In a l -> entry_creds false (a_entry a) = Creds u p -> in_domain (a_domain a) u p = true) ->
   forall row, who (run_session l) = Some row ->
   exists a u p, In a l /\ entry_creds false (a_entry a) = Creds u p /\ accepted (a_backend a) = true
     /\ store_of (address_of (a_domain a) u) row
